@@ -903,10 +903,18 @@ func (pc *PartitionContext) tryPlaceholderAllocate() *objects.AllocationResult {
 	// try allocating from the root down
 	result := pc.root.TryPlaceholderAllocate(pc.GetNodeIterator, pc.GetNode)
 	if result != nil {
+		// the replacement can be reversed (node removal, release by the shim) as soon as the application lock is dropped
+		release := result.Request.GetRelease()
+		if release == nil {
+			log.Log(log.SchedPartition).Info("placeholder replacement reversed while it was processed",
+				zap.String("appID", result.Request.GetApplicationID()),
+				zap.String("allocationKey", result.Request.GetAllocationKey()))
+			return nil
+		}
 		log.Log(log.SchedPartition).Info("scheduler replace placeholder processed",
 			zap.String("appID", result.Request.GetApplicationID()),
 			zap.String("allocationKey", result.Request.GetAllocationKey()),
-			zap.String("placeholder released allocationKey", result.Request.GetRelease().GetAllocationKey()))
+			zap.String("placeholder released allocationKey", release.GetAllocationKey()))
 		// pass the release back to the RM via the cluster context
 		return result
 	}
